@@ -44,40 +44,52 @@ Section Grow.
     exists a. split; [exact Hs|]. apply (conf_since_grow (u_tick u)); [lia|exact Hcs].
   Qed.
 
-  Lemma mut_ok_grow m : mut_ok SN s c pend m -> mut_ok SN' s' c (pend ++ extra) m.
+  (* (a new snapshot is newer than all the old ones) *)
+  Lemma mut_ok_grow m : (forall t r s0, SN' t r s0 -> SN t r s0 \/ forall t0 r0 s00, SN t0 r0 s00 -> r0 < r) ->
+    mut_ok SN s c pend m -> mut_ok SN' s' c (pend ++ extra) m.
   Proof.
-    intros (Hle & r & s1 & H1 & Hp). split; [exact Hle|]. exists r, s1. split; [exact (Hsn _ _ _ H1)|].
-    intros e vals Hin. destruct (Hp e vals Hin) as (Hv & a & Hs & Hcs). split; [exact Hv|]. exists a. split; [exact Hs|].
-    apply (conf_since_grow (m_upd_tick m + 1)); [lia|exact Hcs].
+    intros Hsn' (Hle & r & s1 & H1 & Hp). split; [exact Hle|]. exists r, s1. split; [exact (Hsn _ _ _ H1)|].
+    intros e vals Hin. destruct (Hp e vals Hin) as (Hv & a & Hs & Hcs & Hks). split; [exact Hv|]. exists a. split; [exact Hs|].
+    split; [apply (conf_since_grow (m_upd_tick m + 1)); [lia|exact Hcs]|].
+    intros t0 r0 s0 H0 Ha Hr. destruct (Hsn' _ _ _ H0) as [Hold|Hnewer]; [exact (Hks t0 r0 s0 Hold Ha Hr)|].
+    pose proof (Hnewer _ _ _ H1). lia.
   Qed.
 End Grow.
 
 (* a later server state, more snapshots, the same messages *)
 Lemma cli_inv_srv (SN SN' : N -> N -> server -> Prop) s s' c pend muts :
-  (forall t r s1, SN t r s1 -> SN' t r s1) -> (forall e, dead s e -> dead s' e) ->
+  (forall t r s1, SN t r s1 -> SN' t r s1) ->
+  (forall t r s0, SN' t r s0 -> SN t r s0 \/ forall t0 r0 s00, SN t0 r0 s00 -> r0 < r) ->
+  (forall e, dead s e -> dead s' e) ->
   cli_inv SN s c pend muts -> cli_inv SN' s' c pend muts.
 Proof.
-  intros Hsn Hdead [H1 H2 H3 H4 H5 H6 H7 H8 H9 H10].
+  intros Hsn Hsn' Hdead [H1 H2 H3 H4 H5 H6 H7 H8 H9 H10 H11].
   constructor; try assumption.
   - intros e x h Hh. destruct (H4 e x h Hh) as (r & s1 & x1 & A & B). exists r, s1, x1. split; [exact (Hsn _ _ _ A)|exact B].
   - destruct H5 as [H5|(r & s1 & H5)]; [left; exact H5|right; exists r, s1; exact (Hsn _ _ _ H5)].
   - intros u Hu. rewrite <- (app_nil_r pend). apply (upd_ok_grow SN SN' Hsn s s' c pend [] Hdead); [intros e u0 _ []|exact (H8 u Hu)].
-  - intros m Hm. rewrite <- (app_nil_r pend). apply (mut_ok_grow SN SN' Hsn s s' c pend [] Hdead); [intros e u0 _ []|exact (H9 m Hm)].
+  - intros m Hm. rewrite <- (app_nil_r pend). apply (mut_ok_grow SN SN' Hsn s s' c pend [] Hdead); [intros e u0 _ []|exact Hsn'|exact (H9 m Hm)].
   - intros p u q E e He. destruct (H10 p u q E e He) as (A & B). split; [exact (Hdead e A)|exact B].
+  - intros p u q E. destruct (H11 p u q E) as (r & s1 & A & B). exists r, s1. split; [exact (Hsn _ _ _ A)|exact B].
 Qed.
 
 Lemma srv_slot_srv (SN SN' : N -> N -> server -> Prop) s s' cl c pend muts acks :
-  (forall t r s1, SN t r s1 -> SN' t r s1) -> (forall e, dead s e -> dead s' e) -> sv_tick s <= sv_tick s' ->
+  (forall t r s1, SN t r s1 -> SN' t r s1) ->
+  (forall e a t r s0, mutation_tick (sc_ticks cl) e = Some a -> SN' t r s0 -> a <= r -> SN t r s0) ->
+  (forall e, dead s e -> dead s' e) -> sv_tick s <= sv_tick s' -> sv_now s <= sv_now s' ->
   srv_slot_inv SN s cl c pend muts acks -> srv_slot_inv SN' s' cl c pend muts acks.
 Proof.
-  intros Hsn Hdead Ht [H1 H2 H3 H4 H5 H6 H7 H8].
+  intros Hsn Hback Hdead Ht Hn [H1 H2 H3 H4 H5 H6 H7 H8 H9 H10 H11 H12].
   assert (G : forall g g' e a, g <= g' -> conf_since SN s c pend g e a -> conf_since SN' s' c pend g' e a).
-  { intros g g' e a Hg Hc. rewrite <- (app_nil_r pend). apply (conf_since_grow SN SN' Hsn s s' c pend [] Hdead (fun e0 u0 _ (F : In u0 []) => match F with end) g g' e a Hg Hc). }
+  { intros g g' e a Hg Hc. rewrite <- (app_nil_r pend).
+    apply (conf_since_grow SN SN' Hsn s s' c pend [] Hdead (fun e0 u0 _ (F : In u0 []) => match F with end) g g' e a Hg Hc). }
   constructor; try assumption.
   - intros e a Hst. apply (G (sv_tick s + 1)); [lia|exact (H1 e a Hst)].
   - intros i info e Hi Hinfo He. apply (G 0); [lia|exact (H2 i info e Hi Hinfo He)].
   - intros m info Hm Hinfo. destruct (H3 m info Hm Hinfo) as [[s1 A] B]. split; [exists s1; exact (Hsn _ _ _ A)|exact B].
   - lia.
+  - intros e a Hst t r s0 Hs0 Hle. exact (H9 e a Hst t r s0 (Hback e a t r s0 Hst Hs0 Hle) Hle).
+  - destruct H10 as [A B]. split; [intros e a Hst; pose proof (A e a Hst); lia|intros i info Hi; pose proof (B i info Hi); lia].
 Qed.
 
 (* ================================================================== *)
@@ -87,16 +99,27 @@ Qed.
 Definition with_ticks (cl : sclient) (t : client_ticks) : sclient :=
   mkSC (sc_slot cl) (sc_authorized cl) (sc_max_size cl) t (sc_vis cl) (sc_pending_map cl).
 
-Lemma srv_slot_ack (SN : N -> N -> server -> Prop) s cl c pend muts i acks now :
+Lemma srv_slot_ack (SN : N -> N -> server -> Prop) s cl c pend muts i acks :
+  sv_now s < MAX_CHANGE_AGE ->
   srv_slot_inv SN s cl c pend muts (i :: acks) ->
-  srv_slot_inv SN s (with_ticks cl (ack_mutate_message (sc_ticks cl) now i)) c pend muts acks.
+  srv_slot_inv SN s (with_ticks cl (ack_mutate_message (sc_ticks cl) (sv_now s) i)) c pend muts acks.
 Proof.
-  intros [H1 H2 H3 H4 H5 H6 H7 H8].
+  intros Hmax [H1 H2 H3 H4 H5 H6 H7 H8 H9 [H10a H10b] H11 H12]. set (now := sv_now s) in *.
   destruct (ack_frame (sc_ticks cl) now i) as (F1 & F2 & F3 & F4). cbv zeta in F1, F2, F3, F4.
   assert (Hget : forall j info, al_get j (ct_mutations (ack_mutate_message (sc_ticks cl) now i)) = Some info ->
             al_get j (ct_mutations (sc_ticks cl)) = Some info).
   { intros j info Hj. rewrite F4 in Hj. destruct (N.eq_dec j i) as [->|Hne]; [rewrite al_get_remove_same in Hj; discriminate|].
     rewrite al_get_remove_other in Hj by exact Hne. exact Hj. }
+  (* the stamps only grow *)
+  assert (Hmono : forall e a', mutation_tick (ack_mutate_message (sc_ticks cl) now i) e = Some a' ->
+            exists a, mutation_tick (sc_ticks cl) e = Some a /\ a <= a' /\ a' < now).
+  { intros e a' Hst. rewrite ack_stamps in Hst. destruct (al_get i (ct_mutations (sc_ticks cl))) as [info|] eqn:Ei.
+    - destruct (existsb (N.eqb e) (mi_entities info)).
+      + destruct (mutation_tick (sc_ticks cl) e) as [a|] eqn:Ea; [|discriminate]. cbn [option_map] in Hst. inversion Hst; subst a'.
+        pose proof (H10a e a Ea). pose proof (H10b i info Ei). exists a. split; [reflexivity|].
+        rewrite (ack_stamp_max (ClientTicks.mi_tick info) now a) by lia. lia.
+      + exists a'. split; [exact Hst|]. pose proof (H10a e a' Hst). lia.
+    - exists a'. split; [exact Hst|]. pose proof (H10a e a' Hst). lia. }
   constructor; cbn [with_ticks sc_ticks].
   - intros e a Hst. destruct (ack_bounded_by_message_tick (sc_ticks cl) now i e) as [E|(info & old & Hinfo & Hin & _ & E)].
     + rewrite E in Hst. exact (H1 e a Hst).
@@ -109,6 +132,12 @@ Proof.
   - rewrite F1. exact H6.
   - intros u Hu. rewrite F1. exact (H7 u Hu).
   - rewrite F4. apply al_remove_nodup. exact H8.
+  - intros e a' Hst t r s0 Hs0 Hle. destruct (Hmono e a' Hst) as (a & Ha & Hle' & _). apply (H9 e a Ha t r s0 Hs0). lia.
+  - split.
+    + intros e a' Hst. destruct (Hmono e a' Hst) as (_ & _ & _ & Hlt). exact Hlt.
+    + intros j info Hj. exact (H10b j info (Hget j info Hj)).
+  - intros m Hm. rewrite F1. exact (H11 m Hm).
+  - rewrite F1. exact H12.
 Qed.
 
 Lemma with_ticks_same cl : with_ticks cl (sc_ticks cl) = cl.
@@ -117,13 +146,13 @@ Proof. destruct cl; reflexivity. Qed.
 Lemma with_ticks_twice cl t t' : with_ticks (with_ticks cl t) t' = with_ticks cl t'.
 Proof. reflexivity. Qed.
 
-Lemma srv_slot_ack_all (SN : N -> N -> server -> Prop) s c pend muts now idxs : forall cl acks,
+Lemma srv_slot_ack_all (SN : N -> N -> server -> Prop) s c pend muts idxs : sv_now s < MAX_CHANGE_AGE -> forall cl acks,
   srv_slot_inv SN s cl c pend muts (idxs ++ acks) ->
-  srv_slot_inv SN s (with_ticks cl (ack_all (sc_ticks cl) now idxs)) c pend muts acks.
+  srv_slot_inv SN s (with_ticks cl (ack_all (sc_ticks cl) (sv_now s) idxs)) c pend muts acks.
 Proof.
-  induction idxs as [|i t IH]; intros cl acks H.
+  intros Hmax. induction idxs as [|i t IH]; intros cl acks H.
   - unfold ack_all. cbn [fold_left]. rewrite with_ticks_same. exact H.
-  - rewrite ack_all_cons. cbn [app] in H. apply (srv_slot_ack SN s cl c pend muts i (t ++ acks) now) in H.
+  - rewrite ack_all_cons. cbn [app] in H. apply (srv_slot_ack SN s cl c pend muts i (t ++ acks) Hmax) in H.
     apply IH in H. cbn [with_ticks sc_ticks] in H. exact H.
 Qed.
 
@@ -131,7 +160,7 @@ Lemma srv_slot_cleanup (SN : N -> N -> server -> Prop) s cl c pend muts acks min
   srv_slot_inv SN s cl c pend muts acks ->
   srv_slot_inv SN s (with_ticks cl (cleanup_older_mutations (sc_ticks cl) min_ts)) c pend muts acks.
 Proof.
-  intros [H1 H2 H3 H4 H5 H6 H7 H8].
+  intros [H1 H2 H3 H4 H5 H6 H7 H8 H9 [H10a H10b] H11 H12].
   assert (Hget : forall j info, al_get j (ct_mutations (cleanup_older_mutations (sc_ticks cl) min_ts)) = Some info ->
             al_get j (ct_mutations (sc_ticks cl)) = Some info).
   { intros j info Hj. cbn [cleanup_older_mutations ct_mutations] in Hj. rewrite (al_get_filter (fun info => negb (mi_timestamp info <? min_ts))) in Hj by exact H8.
@@ -146,28 +175,33 @@ Proof.
   - exact H6.
   - exact H7.
   - cbn [cleanup_older_mutations ct_mutations]. apply al_filter_nodup. exact H8.
+  - exact H9.
+  - split; [exact H10a|]. intros j info Hj. exact (H10b j info (Hget j info Hj)).
+  - exact H11.
+  - exact H12.
 Qed.
 
 (* the parts of [srv_slot_inv] only read the acknowledgement bookkeeping of the record *)
 Lemma srv_slot_ticks (SN : N -> N -> server -> Prop) s cl cl' c pend muts acks :
   sc_ticks cl' = sc_ticks cl -> srv_slot_inv SN s cl c pend muts acks -> srv_slot_inv SN s cl' c pend muts acks.
-Proof. intros E [H1 H2 H3 H4 H5 H6 H7 H8]. constructor; rewrite E; assumption. Qed.
+Proof. intros E [H1 H2 H3 H4 H5 H6 H7 H8 H9 H10 H11 H12]. constructor; rewrite E; assumption. Qed.
 
 Lemma srv_slot_sub (SN : N -> N -> server -> Prop) s cl c pend muts acks muts' acks' :
   (forall m, In m muts' -> In m muts) -> (forall i, In i acks' -> In i acks) ->
   srv_slot_inv SN s cl c pend muts acks -> srv_slot_inv SN s cl c pend muts' acks'.
 Proof.
-  intros Hm Ha [H1 H2 H3 H4 H5 H6 H7 H8]. constructor; try assumption.
+  intros Hm Ha [H1 H2 H3 H4 H5 H6 H7 H8 H9 H10 H11 H12]. constructor; try assumption.
   - intros i info e Hi. apply H2. apply Ha. exact Hi.
   - intros m info Hin. apply H3. apply Hm. exact Hin.
   - intros m Hin. apply H4. apply Hm. exact Hin.
   - intros i Hi. apply H5. apply Ha. exact Hi.
+  - intros m Hin. apply H11. apply Hm. exact Hin.
 Qed.
 
-Lemma srv_slot_default (SN : N -> N -> server -> Prop) s cl c : sc_ticks cl = ct_default ->
+Lemma srv_slot_default (SN : N -> N -> server -> Prop) s cl c : sc_ticks cl = ct_default -> cl_upd_tick c = 0 ->
   srv_slot_inv SN s cl c [] [] [].
 Proof.
-  intros E. constructor; rewrite E.
+  intros E E0. constructor; rewrite E.
   - intros e a H. discriminate.
   - intros i info e [].
   - intros m info [].
@@ -176,6 +210,10 @@ Proof.
   - cbn. lia.
   - intros u [].
   - constructor.
+  - intros e a H. discriminate.
+  - split; [intros e a H; discriminate|intros i info H; discriminate].
+  - intros m [].
+  - cbn. symmetry. exact E0.
 Qed.
 
 
@@ -229,7 +267,12 @@ Section Send.
   Hypothesis Hdb : db_ok s3.
   Hypothesis Hcli : cli_inv SN s3 cli pend muts.
   Hypothesis Hslot : srv_slot_inv SN s3 cl3 cli pend muts acks.
+  Hypothesis Hboundr : forall t r s1, SN t r s1 -> r < sv_now s3.
+  Hypothesis Hsn' : forall t r s0, SN' t r s0 -> SN t r s0 \/ (t = sv_tick s3 /\ r = sv_now s3 /\ s0 = s').
+  Hypothesis Hnow' : sv_now s' = sv_now s3 + 1.
+  Hypothesis Hp3 : pending_ok s3 (sc_ticks cl3) (fold_left abs_apply pend (client_struct cli)).
 
+  Local Notation S0 := (fold_left abs_apply pend (client_struct cli)).
   Local Notation run := (sv_now s3).
   Local Notation P := (sfc_pure c s3 (sv_now s3) cl3 p).
   Local Notation ecof e x madd := (nv_ec s3 cl3 (e, x, madd)).
@@ -401,6 +444,39 @@ Section Send.
     intros e0 u Hd Hu. rewrite (Hex u Hu). intros Hm0. exact (send_not_dead e0 Hm0 Hd).
   Qed.
 
+  (* ---------- the structure ---------- *)
+
+  Lemma send_diff : struct_equiv (abs_send S0 (co_update (snd P))) (struct_of s').
+  Proof.
+    rewrite (struct_of_ext s3 s' Hents').
+    exact (proj1 (tick_sends_diff c s3 run cl3 p (fst P) (snd P) S0 [] Hok Hev Hvis Hp3 (sfc_send_eq c s3 cl3 p))).
+  Qed.
+
+  Lemma send_S_untouched e : ~ mentions upd e -> mem_N e (sv_despawn_buf s3) = false ->
+    al_get e (abs_send S0 (co_update (snd P))) = al_get e S0.
+  Proof.
+    intros Hnm Hmem. rewrite (sfc_update_out c s3 cl3 p). destruct (sfc_has_upd s3 run cl3); [|reflexivity]. cbn [abs_send].
+    apply untouched_get. destruct send_upd_fields as (_ & _ & Ed & _). unfold untouched. rewrite Ed.
+    split; [intros Hin; apply mem_N_In in Hin; congruence|]. unfold mentions in Hnm. tauto.
+  Qed.
+
+  Lemma send_new_r t r s0 : SN' t r s0 -> SN t r s0 \/ forall t0 r0 s00, SN t0 r0 s00 -> r0 < r.
+  Proof. intros H. destruct (Hsn' t r s0 H) as [Ho|(_ & -> & _)]; [left; exact Ho|right]. intros t0 r0 s00 H0. exact (Hboundr _ _ _ H0). Qed.
+
+  (* an entity whose stamp is kept and that the update message does not mention: same kinds since that stamp, up to the new snapshot *)
+  Lemma send_kstable e a : mutation_tick (sc_ticks cl3) e = Some a -> ~ mentions upd e -> mem_N e (sv_despawn_buf s3) = false ->
+    forall t r s0, SN' t r s0 -> a <= r ->
+      opt_equiv (al_get e (struct_of s0)) (al_get e (abs_send S0 (co_update (snd P)))) /\
+      opt_equiv (al_get e (struct_of s0)) (al_get e (struct_of s')).
+  Proof.
+    intros Hst Hnm Hmem t r s0 Hs0 Ha.
+    assert (Hd : opt_equiv (al_get e (abs_send S0 (co_update (snd P)))) (al_get e (struct_of s'))) by exact (proj1 (struct_equiv_pointwise _ _) send_diff e).
+    destruct (Hsn' t r s0 Hs0) as [Ho|(_ & _ & ->)].
+    - pose proof (sv_SK SN s3 cl3 cli pend muts acks Hslot e a Hst t r s0 Ho Ha) as H1. rewrite <- (send_S_untouched e Hnm Hmem) in H1.
+      split; [exact H1|exact (opt_equiv_trans _ _ _ H1 Hd)].
+    - split; [apply opt_equiv_sym; exact Hd|apply opt_equiv_refl].
+  Qed.
+
   (* ---------- the mutate messages ---------- *)
 
   Lemma send_mut_ok extra m : (forall u, In u extra -> u = upd /\ sfc_has_upd s3 run cl3 = true) ->
@@ -412,13 +488,20 @@ Section Send.
     split; [rewrite Ht; exact Hle|]. exists run, s'. split; [rewrite Ht; exact Hnewsnap|].
     intros e vals Hb. destruct (sfc_mut_entry c s3 cl3 p Hvis Hwf m e vals Hm Hb) as (x & madd & Hr & Emu & Hne & Een & Ebump).
     destruct (send_repl e x madd Hr) as (_ & _ & _ & Hnd & _).
-    destruct (send_ent e x madd Hr) as (Hv & [(_ & B & _)|(a & Hst & Hs & [(B & _)|(_ & _ & Ev & _)])]); [congruence|congruence|].
+    destruct (send_ent e x madd Hr) as (Hv & [(_ & B & _)|(a & Hst & Hs & [(B & _)|(_ & _ & Ev & Erb)])]); [congruence|congruence|].
     rewrite Emu in Ev. rewrite <- Ev in Hv, Hs. split; [exact Hv|]. exists a. split; [exact Hs|].
-    apply send_conf_old; [|exact Hnd|exact Hst|].
-    - intros e0 u Hd Hin. rewrite (proj1 (Hex u Hin)). intros Hm0. exact (send_not_dead e0 Hm0 Hd).
-    - intros u0 Hu0. rewrite Hu. destruct (sfc_has_upd s3 run cl3).
-      + pose proof (send_pend_lt u0 Hu0). lia.
-      + pose proof (sv_utp SN s3 cl3 cli pend muts acks Hslot u0 Hu0). lia.
+    assert (Hnm : ~ mentions upd e).
+    { destruct send_upd_fields as (_ & _ & _ & Er & Ec). unfold mentions. rewrite Er, Ec, keys_sort_by_key. intros [Hm0|Hm0].
+      - apply al_get_keys_iff in Hm0. congruence.
+      - apply al_get_keys_iff in Hm0. rewrite (send_changes_get e x madd Hr), Een in Hm0. congruence. }
+    split.
+    - apply send_conf_old; [|exact Hnd|exact Hst|].
+      + intros e0 u Hd Hin. rewrite (proj1 (Hex u Hin)). intros Hm0. exact (send_not_dead e0 Hm0 Hd).
+      + intros u0 Hu0. rewrite Hu. destruct (sfc_has_upd s3 run cl3).
+        * pose proof (send_pend_lt u0 Hu0). lia.
+        * pose proof (sv_utp SN s3 cl3 cli pend muts acks Hslot u0 Hu0). lia.
+    - intros t r s0 Hs0 Ha _. exact (proj2 (send_kstable e a Hst Hnm (proj1 (proj2 (proj2 (proj2 (proj2 (send_repl e x madd Hr))))))
+                                              t r s0 Hs0 Ha)).
   Qed.
 
   (* ---------- the invariants after the send ---------- *)
@@ -439,7 +522,7 @@ Section Send.
 
   Theorem send_cli : cli_inv SN' s' cli (pend ++ send_extra) (muts ++ co_mutates (snd P)).
   Proof.
-    pose proof Hcli as [H1 H2 H3 H4 H5 H6 H7 H8 H9 H10]. destruct send_upd_fields as (Et & _ & Ed & _).
+    pose proof Hcli as [H1 H2 H3 H4 H5 H6 H7 H8 H9 H10 H11]. destruct send_upd_fields as (Et & _ & Ed & _).
     constructor; try assumption.
     - intros e x h Hh. destruct (H4 e x h Hh) as (r & s1 & x1 & A & B). exists r, s1, x1. split; [exact (Hsn _ _ _ A)|exact B].
     - destruct H5 as [H5|(r & s1 & H5)]; [left; exact H5|right; exists r, s1; exact (Hsn _ _ _ H5)].
@@ -451,7 +534,7 @@ Section Send.
       + apply (upd_ok_grow SN SN' Hsn s3 s' cli pend send_extra send_dead_fwd send_new_dead). exact (H8 u Hu).
       + destruct (send_extra_in u Hu) as [-> _]. apply send_upd_ok; [exact Hu|]. intros u0 Hu0. exact (proj1 (send_extra_in u0 Hu0)).
     - intros m Hm. apply in_app_or in Hm. destruct Hm as [Hm|Hm].
-      + apply (mut_ok_grow SN SN' Hsn s3 s' cli pend send_extra send_dead_fwd send_new_dead). exact (H9 m Hm).
+      + apply (mut_ok_grow SN SN' Hsn s3 s' cli pend send_extra send_dead_fwd send_new_dead); [exact send_new_r|exact (H9 m Hm)].
       + apply send_mut_ok; [exact send_extra_in|exact Hm].
     - intros p0 u q E e He.
       assert (Hcase : (exists q', q = q' ++ send_extra /\ pend = p0 ++ u :: q') \/ (q = [] /\ In u send_extra /\ p0 = pend)).
@@ -466,6 +549,30 @@ Section Send.
         intros u' Hu'. apply in_app_or in Hu'. destruct Hu' as [Hu'|Hu']; [exact (C u' Hu')|exact (send_new_dead e u' A Hu')].
       + destruct (send_extra_in u Hu) as [-> _]. rewrite Ed in He. pose proof (Hdb e He) as Hd.
         split; [exact (send_dead_fwd e Hd)|]. split; [intros Hm; exact (send_not_dead e Hm Hd)|intros u' []].
+    - intros p0 u q E.
+      assert (Hcase : (exists q', q = q' ++ send_extra /\ pend = p0 ++ u :: q') \/ (q = [] /\ In u send_extra /\ p0 = pend)).
+      { unfold send_extra in *. destruct (sfc_has_upd s3 run cl3).
+        - symmetry in E. apply app_snoc_split in E. destruct E as [[E1 E2]|[q' [E1 E2]]]; [discriminate|].
+          destruct q' as [|f q'']; cbn [app] in E1.
+          + injection E1 as Eu Eq. right. rewrite app_nil_r in E2. split; [exact Eq|]. split; [left; symmetry; exact Eu|symmetry; exact E2].
+          + injection E1 as Eu Eq. left. exists q''. split; [exact Eq|]. rewrite Eu. exact E2.
+        - rewrite app_nil_r in E. left. exists q. split; [rewrite app_nil_r; reflexivity|exact E]. }
+      destruct Hcase as [(q' & _ & Ep)|(_ & Hu & ->)].
+      + destruct (H11 p0 u q' Ep) as (r & s1 & A & B). exists r, s1. split; [exact (Hsn _ _ _ A)|exact B].
+      + destruct (send_extra_in u Hu) as [-> Hhas]. exists run, s'. split; [rewrite Et; exact Hnewsnap|].
+        rewrite fold_left_app. cbn [fold_left]. pose proof send_diff as Hd. rewrite (sfc_update_out c s3 cl3 p), Hhas in Hd. exact Hd.
+  Qed.
+
+  Lemma mut_ticks_entry this_run elapsed parts : forall t i info,
+    al_get i (ct_mutations (mut_ticks this_run elapsed t parts)) = Some info ->
+    al_get i (ct_mutations t) = Some info \/ ClientTicks.mi_tick info = this_run.
+  Proof.
+    induction parts as [|ents r IH]; intros t i info H; [left; exact H|]. rewrite mut_ticks_cons in H.
+    destruct (IH _ i info H) as [H0|H0]; [|right; exact H0].
+    destruct (reg_step_fields this_run elapsed t ents) as (_ & _ & _ & F4 & F5).
+    destruct (N.eq_dec i (ct_mutate_index t)) as [->|Hne].
+    - rewrite F4 in H0. inversion H0. right. reflexivity.
+    - rewrite (F5 i Hne) in H0. left. exact H0.
   Qed.
 
   Lemma mut_ticks_nodup this_run elapsed parts : forall t,
@@ -478,7 +585,7 @@ Section Send.
 
   Theorem send_slot : srv_slot_inv SN' s' (fst P) cli (pend ++ send_extra) (muts ++ co_mutates (snd P)) acks.
   Proof.
-    pose proof Hslot as [K1 K2 K3 K4 K5 K6 K7 K8]. destruct send_upd_fields as (Et & _).
+    pose proof Hslot as [K1 K2 K3 K4 K5 K6 K7 K8 K9 [K10a K10b] K11 K12]. destruct send_upd_fields as (Et & _).
     destruct (sfc_regs c s3 cl3 p Hnowrap) as (R1 & R2 & R3). cbv zeta in R1, R2, R3.
     assert (Hut' : ct_update_tick (sc_ticks (fst P)) = if sfc_has_upd s3 run cl3 then sv_tick s3 else ct_update_tick (sc_ticks cl3)).
     { rewrite (sfc_ticks_final c s3 cl3 p). rewrite (proj1 (proj2 (mut_ticks_fields run (sv_elapsed s3) _ _))).
@@ -521,5 +628,76 @@ Section Send.
       + destruct (sfc_has_upd s3 run cl3); [pose proof (send_pend_lt u Hu); lia|exact (K7 u Hu)].
       + destruct (send_extra_in u Hu) as [-> ->]. lia.
     - rewrite (sfc_ticks_final c s3 cl3 p). apply mut_ticks_nodup. rewrite (proj1 (proj2 (sfc_ticks3_fields s3 run cl3))). exact K8.
+    - (* kinds since the acknowledged stamp *)
+      intros e a Hst t r s0 Hs0 Ha.
+      assert (Efold : fold_left abs_apply (pend ++ send_extra) (client_struct cli) = abs_send S0 (co_update (snd P))).
+      { rewrite fold_left_app, send_extra_out. destruct (co_update (snd P)); reflexivity. }
+      rewrite Efold.
+      assert (Hnewcase : a = run -> opt_equiv (al_get e (struct_of s0)) (al_get e (abs_send S0 (co_update (snd P))))).
+      { intros ->. destruct (Hsn' t r s0 Hs0) as [Ho|(_ & _ & ->)]; [pose proof (Hboundr _ _ _ Ho); lia|].
+        apply opt_equiv_sym. exact (proj1 (struct_equiv_pointwise _ _) send_diff e). }
+      assert (Hkept : (forall x madd, In (e, x, madd) (replicated_ents s3) -> ec_bump (ecof e x madd) = false) ->
+                opt_equiv (al_get e (struct_of s0)) (al_get e (abs_send S0 (co_update (snd P))))).
+      { intros Hnb. rewrite (sfc_stamp_kept c s3 cl3 p Hvis Hwf e Hnb) in Hst.
+        destruct (mem_N e (sv_despawn_buf s3)) eqn:Emem; [discriminate|].
+        assert (Hnm : ~ mentions upd e).
+        { intros Hm. destruct (send_mentions e Hm) as (x & madd & Hin & _ & Hb). rewrite (Hnb x madd Hin) in Hb. discriminate. }
+        exact (proj1 (send_kstable e a Hst Hnm Emem t r s0 Hs0 Ha)). }
+      destruct (repl_get s3 e) as [x|] eqn:Ex.
+      + apply (repl_get_spec s3 e x Hwf) in Ex. destruct Ex as [madd Hin].
+        destruct (ec_bump (ecof e x madd)) eqn:Eb.
+        * rewrite (sfc_stamp_bumped c s3 cl3 p Hvis Hwf e x madd Hin Eb) in Hst. inversion Hst; subst a. exact (Hnewcase eq_refl).
+        * apply Hkept. intros x' madd' Hin'. destruct (repl_ents_unique s3 e x madd x' madd' Hwf Hin Hin') as [-> ->]. exact Eb.
+      + apply Hkept. intros x madd Hin. exfalso. assert (repl_get s3 e = Some x) by (apply repl_get_spec; [exact Hwf|exists madd; exact Hin]). congruence.
+    - (* stamps below the counter *)
+      rewrite Hnow'. split.
+      + intros e a Hst. rewrite (sfc_stamp_after c s3 cl3 p Hvis e) in Hst.
+        destruct (existsb _ (sfc_ecs s3 run cl3)); [inversion Hst; lia|]. destruct (mem_N e (sv_despawn_buf s3)); [discriminate|].
+        pose proof (K10a e a Hst). lia.
+      + intros i info Hi. destruct (N.lt_ge_cases i (ct_mutate_index (sc_ticks cl3))) as [Hlt|Hge].
+        * rewrite (R3 i Hlt) in Hi. pose proof (K10b i info Hi). lia.
+        * rewrite (sfc_ticks_final c s3 cl3 p) in Hi.
+          destruct (mut_ticks_entry run (sv_elapsed s3) (sfc_parts c s3 run cl3 p) (sfc_ticks3 s3 run cl3) i info Hi) as [Hold|Hnew].
+          -- rewrite (proj1 (proj2 (sfc_ticks3_fields s3 run cl3))) in Hold. pose proof (K10b i info Hold). lia.
+          -- rewrite Hnew. lia.
+    - intros m Hm. rewrite Hut'. apply in_app_or in Hm. destruct Hm as [Hm|Hm].
+      + pose proof (K11 m Hm). destruct (sfc_has_upd s3 run cl3); lia.
+      + rewrite (proj2 (sfc_mut_header c s3 cl3 p m Hm)). lia.
+    - rewrite Hut'. unfold send_extra. destruct (sfc_has_upd s3 run cl3).
+      + rewrite map_app. cbn [map]. rewrite last_snoc. exact (eq_sym Et).
+      + rewrite app_nil_r. exact K12.
+  Qed.
+
+  (* ---------- after the send, every replicated entity is covered ---------- *)
+
+  (* its acknowledged stamp is not older than any of its components, or a mutate message of this run that is
+     registered under its index carries it *)
+  Lemma send_covered e x madd : In (e, x, madd) (replicated_ents s3) ->
+    (exists a, mutation_tick (sc_ticks (fst P)) e = Some a /\ forall k cc, In (k, cc) (se_comps x) -> c_changed cc <= a) \/
+    (mutation_tick (sc_ticks (fst P)) e <> None /\
+     exists m, In m (co_mutates (snd P)) /\ In e (map fst (m_body m)) /\
+       al_get (m_idx m) (ct_mutations (sc_ticks (fst P))) = Some (mkMI run (sv_elapsed s3) (map fst (m_body m))) /\
+       forall k cc, In (k, cc) (se_comps x) -> c_changed cc <= run).
+  Proof.
+    intros Hin. destruct (send_repl e x madd Hin) as (Hg & _ & _ & Hnd & Hmem & Hcok & _).
+    assert (Hle : forall k cc, In (k, cc) (se_comps x) -> c_changed cc <= run).
+    { intros k cc Hk. exact (proj2 (proj2 (proj2 (proj2 Hcok k cc Hk)))). }
+    destruct (ec_bump (ecof e x madd)) eqn:Eb.
+    - left. exists run. split; [exact (sfc_stamp_bumped c s3 cl3 p Hvis Hwf e x madd Hin Eb)|exact Hle].
+    - assert (Hkept : mutation_tick (sc_ticks (fst P)) e = mutation_tick (sc_ticks cl3) e).
+      { rewrite (sfc_stamp_kept c s3 cl3 p Hvis Hwf e); [rewrite Hmem; reflexivity|].
+        intros x' madd' Hin'. destruct (repl_ents_unique s3 e x madd x' madd' Hwf Hin Hin') as [-> ->]. exact Eb. }
+      destruct (send_ent e x madd Hin) as (_ & [(_ & B & _)|(a & Hst & Hs & [(B & _)|(_ & Een & Ev & _)])]); [congruence|congruence|].
+      destruct (ec_muts (ecof e x madd)) as [|kv0 r0] eqn:Em.
+      + left. exists a. split; [rewrite Hkept; exact Hst|]. intros k cc Hk.
+        destruct (Hs x k cc (proj1 (proj2 (send_repl e x madd Hin))) (proj1 (comps_in_get x k cc Hcok) Hk)) as [Hi|Hc]; [|exact Hc].
+        rewrite <- Ev in Hi. destruct Hi.
+      + right. split; [rewrite Hkept, Hst; discriminate|].
+        assert (Hms : In e (map fst (mutated_set s3 run cl3))).
+        { apply in_map_iff. exists (e, kv0 :: r0). split; [reflexivity|]. rewrite mutated_set_eq, In_muts_of.
+          exists (ecof e x madd). split; [|split; [exact Em|discriminate]].
+          rewrite (nv_ecs s3 cl3 run Hvis Hwf). apply in_map_iff. exists (e, x, madd). split; [reflexivity|exact Hin]. }
+        destruct (sfc_mut_covered c s3 cl3 p e Hms) as (m & Hm & Hem). exists m. split; [exact Hm|]. split; [exact Hem|].
+        split; [exact (proj2 (proj1 (proj2 (sfc_regs c s3 cl3 p Hnowrap)) m Hm))|exact Hle].
   Qed.
 End Send.
